@@ -10,10 +10,16 @@ Forms(d, t) == { "from " \o d \o " " \o t[1] \o " to " \o t[2], d \o " " \o t[1]
                  d \o " between " \o t[1] \o " and " \o t[2], "from " \o t[1] \o " to " \o t[2] \o " " \o d, t[1] \o "-" \o t[2] \o " " \o d,
                  "from " \o d \o " " \o t[1] \o " until " \o t[2] }
 DForms(p) == { "from " \o p[1] \o " to " \o p[2], "between " \o p[1] \o " and " \o p[2], p[1] \o " - " \o p[2], "from " \o p[1] \o " until " \o p[2] }
+(* zh-cn clock-time ranges given to the second (borrow from minutes and hours, turn of the day), alone and after a date;
+   written with the {hex} escapes the harness decodes: {5230} = 到, {4ece} = 从 *)
+ZhTimes == << <<"17:20:40", "18:20:10">>, <<"17:55:23", "18:33:02">>, <<"9:05:50", "9:06:10">>, <<"23:59:59", "00:00:01">>, <<"8:00:00", "10:00:00">>, <<"17:20:10", "18:20:40">> >>
+ZhForms(t) == { t[1] \o "-" \o t[2], t[1] \o "{5230}" \o t[2], "{4ece}" \o t[1] \o "{5230}" \o t[2], "2019{5e74}1{6708}3{65e5}" \o t[1] \o "{5230}" \o t[2] }
+ZhTexts == UNION { ZhForms(ZhTimes[j]) : j \in 1..Len(ZhTimes) }
 Texts == UNION { Forms(Days[i], Times[j]) : i \in 1..Len(Days), j \in 1..Len(Times) } \cup UNION { DForms(DatePairs[k]) : k \in 1..Len(DatePairs) }
 VARIABLES c, pc
 vars == <<c, pc>>
-Init == c \in { [text |-> x, culture |-> "en-us", ref |-> r] : x \in Texts, r \in {"2019-06-12T12:00:00", "2019-12-31T23:30:00"} } /\ pc = "gen"
+Init == c \in { [text |-> x, culture |-> "en-us", ref |-> r] : x \in Texts, r \in {"2019-06-12T12:00:00", "2019-12-31T23:30:00"} }
+             \cup { [text |-> x, culture |-> "zh-cn", ref |-> "2019-06-12T12:00:00"] : x \in ZhTexts } /\ pc = "gen"
 Emit == pc = "gen" /\ pc' = "done" /\ UNCHANGED c
 Next == Emit
 Spec == Init /\ [][Next]_vars
